@@ -82,9 +82,9 @@ func checkC03(r *mon.Run) {
 		"completed one-hop paths are reversed in the one-hop phase (between neighbouring ASes over every link of the topology)",
 	}
 	rng := r.Rand("c03")
-	nMulti := r.Pick(10, 150)
+	nMulti := r.Pick(30, 400)
 	chains := []int{3, 9}
-	worlds(r, rng, nMulti, chains, true, func(w *world, wi int) {
+	worlds(r, rng, nMulti, chains, true, func(w *world, wi int, rng *rand.Rand) {
 		for _, pr := range w.pairs(rng, 0) {
 			for _, f := range w.flows(rng, pr[0], pr[1]) {
 				f := f
@@ -108,7 +108,7 @@ func checkC03(r *mon.Run) {
 		}
 		c03OneHop(r, rng, w)
 	})
-	r.Require(int64(r.Pick(1000, 40000)), 12, "reply_delivered", "epic_request_delivered", "onehop_reply_delivered")
+	r.Require(int64(r.Pick(3000, 60000)), 12, "reply_delivered", "epic_request_delivered", "onehop_reply_delivered")
 }
 
 func judgeRequest(r *mon.Run, w *world, f *flow, in []byte, wk *simnet.Walk, epicReq bool) bool {
